@@ -31,8 +31,8 @@ INF = float("inf")
 def programs(tier):
     out = []
 
-    def p(label, vars_, rows, obj, sense="Min", offset=0.0):
-        out.append({"label": label, "vars": vars_, "rows": rows, "obj": obj, "sense": sense, "offset": offset, "real_only": True})
+    def p(label, vars_, rows, obj, sense="Min", offset=0.0, known=None):
+        out.append({"label": label, "vars": vars_, "rows": rows, "obj": obj, "sense": sense, "offset": offset, "real_only": True, "known": known})
     NN = lambda lo=0.0, hi=INF: ("NonNegativeReal", lo, hi)
     RL = lambda lo=-INF, hi=INF: ("Real", lo, hi)
     # textbook
@@ -87,6 +87,10 @@ def programs(tier):
     # cycling under the largest-coefficient rule without a consistent tie-break (Chvatal)
     p("Chvatal", [("y1", NN()), ("y2", NN()), ("y3", NN()), ("y4", NN())],
       [("r1", [0.5, -5.5, -2.5, 9.0], "LessOrEqual", 0.0), ("r2", [0.5, -1.5, -0.5, 1.0], "LessOrEqual", 0.0), ("r3", [1.0, 0.0, 0.0, 0.0], "LessOrEqual", 1.0)], [10.0, -57.0, -9.0, -24.0], "Max")
+    # the same cycling example in equality form, its slack columns interleaved with the structural ones
+    p("Chvatal, equality form, interleaved slacks", [("x_0", NN()), ("x_1", NN()), ("x_2", NN()), ("x_3", NN()), ("x_4", NN()), ("x_5", NN()), ("x_6", NN())],
+      [("r1", [-5.5, 0.0, 0.5, 9.0, -2.5, 1.0, 0.0], "Equal", 0.0), ("r2", [-1.5, 1.0, 0.5, 1.0, -0.5, 0.0, 0.0], "Equal", 0.0), ("r3", [0.0, 0.0, 1.0, -1.0, 0.0, 0.0, 1.0], "Equal", 1.0)],
+      [57.0, 0.0, -10.0, 24.0, 9.0, 0.0, 0.0], "Min", known=("Optimal", Fr(-1)))   # Chvatal, Linear Programming, ch. 3: optimum 1 of the max form
     # cycling without an anti-cycling rule (Beale)
     p("Beale", [("x1", NN()), ("x2", NN()), ("x3", NN()), ("x4", NN())],
       [("r1", [0.25, -60.0, -0.04, 9.0], "LessOrEqual", 0.0), ("r2", [0.5, -90.0, -0.02, 3.0], "LessOrEqual", 0.0), ("r3", [0.0, 0.0, 1.0, 0.0], "LessOrEqual", 1.0)], [-0.75, 150.0, -0.02, 6.0], "Min")
@@ -106,7 +110,11 @@ def programs(tier):
 
 def exact(md):
     """exact verdict and optimum of a program over the rationals: ('Optimal', Fraction) | ('Infeasible',) | ('Unbounded',)"""
+    if md.get("known") is not None:
+        return md["known"]     # elimination is doubly exponential: programs of more than four variables carry their textbook answer
     n = len(md["vars"])
+    if n > 4:
+        raise ValueError("program %r has %d variables and no known answer" % (md["label"], n))
     rows = []
     F_ = lambda x: Fr(x).limit_denominator(10 ** 9) if x not in (INF, -INF) else x
     for name, coeffs, cmp_, rhs in md["rows"]:
@@ -157,7 +165,7 @@ def check(F, R, tier="quick", props=("C05", "C04", "C14", "C03")):
         if is_unknown(lm):
             R.undecided("SIMPLEX-EQUIV", key + ":model", where, "the model could not be built: %r" % (lm,))
             continue
-        r = I.call_fn(SLOW, [lm, 10000])
+        r = I.call_fn(SLOW, [lm, 300])
         if is_unknown(r):
             R.undecided("SIMPLEX-EQUIV", key, where, "simplex path not evaluable: %r" % (r,))
             continue
